@@ -613,6 +613,58 @@ Proof.
     rewrite ?g_int, ?g_float; exact H2.
 Qed.
 
+(* what is found under STRT / STOP / STEP after a refresh that recomputed the values *)
+Lemma after_find_strt : need1 = true ->
+  exists itS, nth_error w0 nS = Some itS /\
+    sect_find trw k_strt (s_items (l_well l3)) = Some (hf (su (unit_of l nS) (sv (strt_of (index_of l)) itS))).
+Proof.
+  intro Hn1. destruct (fidx_match _ _ _ _ HS) as [itS [HnS _]]. exists itS. split; [exact HnS|].
+  rewrite sect_find_nth, after_fidx, HS, after_well_items, ws_nth_error_map, nth_error_refreshed.
+  fold w0. rewrite HnS. simpl. unfold refreshed, updf. rewrite Hn1, Nat.eqb_refl.
+  pose proof (nS_nP trw w0 nS nP nE HS HP HE) as N1. pose proof (nS_nE trw w0 nS nP nE HS HP HE) as N2.
+  apply Nat.eqb_neq in N1, N2. rewrite N1, N2. reflexivity.
+Qed.
+
+Lemma after_find_stop : need1 = true ->
+  exists itP, nth_error w0 nP = Some itP /\
+    sect_find trw k_stop (s_items (l_well l3)) = Some (hf (su (unit_of l nS) (sv (stop_of (index_of l)) itP))).
+Proof.
+  intro Hn1. destruct (fidx_match _ _ _ _ HP) as [itP [HnP _]]. exists itP. split; [exact HnP|].
+  rewrite sect_find_nth, after_fidx, HP, after_well_items, ws_nth_error_map, nth_error_refreshed.
+  fold w0. rewrite HnP. simpl. unfold refreshed, updf. rewrite Hn1, Nat.eqb_refl.
+  pose proof (nS_nP trw w0 nS nP nE HS HP HE) as N1. pose proof (nP_nE trw w0 nS nP nE HS HP HE) as N2.
+  apply not_eq_sym in N1. apply Nat.eqb_neq in N1, N2. rewrite N1, N2. reflexivity.
+Qed.
+
+Lemma after_find_step : need1 = true ->
+  exists itE, nth_error w0 nE = Some itE /\
+    sect_find trw k_step (s_items (l_well l3)) = Some (hf (su (unit_of l nS) (sv (step_of (index_of l)) itE))).
+Proof.
+  intro Hn1. destruct (fidx_match _ _ _ _ HE) as [itE [HnE _]]. exists itE. split; [exact HnE|].
+  rewrite sect_find_nth, after_fidx, HE, after_well_items, ws_nth_error_map, nth_error_refreshed.
+  fold w0. rewrite HnE. simpl. unfold refreshed, updf. rewrite Hn1, Nat.eqb_refl.
+  pose proof (nS_nE trw w0 nS nP nE HS HP HE) as N1. pose proof (nP_nE trw w0 nS nP nE HS HP HE) as N2.
+  apply not_eq_sym in N1, N2. apply Nat.eqb_neq in N1, N2. rewrite N1, N2. reflexivity.
+Qed.
+
+(* units after any refresh (values recomputed or not) *)
+Lemma after_units :
+  exists a b c,
+    sect_find trw k_strt (s_items (l_well l3)) = Some a /\ i_unit a = unit_of l nS /\
+    sect_find trw k_stop (s_items (l_well l3)) = Some b /\ i_unit b = unit_of l nS /\
+    sect_find trw k_step (s_items (l_well l3)) = Some c /\ i_unit c = unit_of l nS.
+Proof.
+  destruct (fidx_match _ _ _ _ HS) as [itS [HnS _]].
+  destruct (fidx_match _ _ _ _ HP) as [itP [HnP _]].
+  destruct (fidx_match _ _ _ _ HE) as [itE [HnE _]].
+  rewrite !sect_find_nth, !after_fidx, HS, HP, HE, after_well_items, !ws_nth_error_map, !nth_error_refreshed.
+  fold w0. rewrite HnS, HnP, HnE. simpl.
+  do 3 eexists. repeat split; unfold refreshed, updf; rewrite ?Nat.eqb_refl.
+  - destruct (Nat.eqb nS nP), (Nat.eqb nS nE); reflexivity.
+  - destruct (Nat.eqb nP nE); reflexivity.
+  - reflexivity.
+Qed.
+
 End After.
 
 (* refresh; normalise; refresh again; normalise again: nothing changes the second time *)
@@ -637,5 +689,77 @@ Proof.
 Qed.
 
 End TwoPass.
+
+Variable fzero : list N -> bool.
+Definition norm_las : las -> las := norm_g (standardize fzero).
+
+Lemma refresh_std_idem m l2 :
+  refresh m = Some l2 ->
+  exists l2', refresh (mkmlas (norm_las l2) (m_index_initial m)) = Some l2' /\ norm_las l2' = norm_las l2.
+Proof.
+  apply refresh_norm_idem.
+  - apply standardize_idem.
+  - intros; apply standardize_int.
+  - intros; apply standardize_float.
+Qed.
+
+Lemma norm_id l : norm_g (fun v _ => v) l = l.
+Proof.
+  assert (Hs : forall s, map_section (hf (fun v _ => v)) s = s).
+  { intros [its t]. unfold map_section. simpl. f_equal.
+    rewrite <- (map_id its) at 2. apply map_ext. intros [o se u v d]. reflexivity. }
+  unfold norm_g. rewrite !Hs. destruct l. reflexivity.
+Qed.
+
+(* update_start_stop_step + update_units_from_index_curve applied twice = applied once *)
+Lemma refresh_idem m l :
+  refresh m = Some l -> refresh (mkmlas l (m_index_initial m)) = Some l.
+Proof.
+  intro H.
+  destruct (refresh_norm_idem (fun v _ => v) (fun _ _ => eq_refl) (fun _ _ => eq_refl) (fun _ _ => eq_refl) m l H)
+    as (l2' & H1 & H2).
+  rewrite !norm_id in *. subst l2'. exact H1.
+Qed.
+
+(* ---- frame of refresh + normalisation at the level of the LASFile ------------------------------ *)
+Definition wframe_n (tr : bool) (a b : hitem) : Prop :=
+  i_orig b = i_orig a /\ i_sess b = i_sess a /\ i_descr b = i_descr a /\
+  (is_sss tr (i_sess a) = false ->
+   i_unit b = i_unit a /\ i_value b = standardize fzero (i_value a) (i_unit a)).
+
+Definition cframe (a b : hitem) : Prop :=
+  i_orig b = i_orig a /\ i_sess b = i_sess a /\ i_value b = i_value a /\ i_descr b = i_descr a.
+
+Lemma Forall2_map_compose {A} (R R' : A -> A -> Prop) (f : A -> A)
+      (H : forall a b, R a b -> R' a (f b)) : forall l l', Forall2 R l l' -> Forall2 R' l (map f l').
+Proof. induction 1; simpl; constructor; auto. Qed.
+
+Lemma refresh_norm_well_frame l need nS nP nE :
+  fidx (s_transforms (l_well l)) k_strt (s_items (l_well l)) = Some nS ->
+  fidx (s_transforms (l_well l)) k_stop (s_items (l_well l)) = Some nP ->
+  fidx (s_transforms (l_well l)) k_step (s_items (l_well l)) = Some nE ->
+  Forall2 (wframe_n (s_transforms (l_well l))) (s_items (l_well l))
+          (s_items (l_well (norm_las (refresh_result l need nS nP nE)))).
+Proof.
+  intros HS HP HE.
+  change (s_items (l_well (norm_las (refresh_result l need nS nP nE))))
+    with (map (hf (standardize fzero)) (align (unit_of l nS) nS nP nE (set_vals need (index_of l) nS nP nE (s_items (l_well l))))).
+  eapply Forall2_map_compose; [|apply refresh_items_frame; assumption].
+  intros a b (O & S & D & U). unfold wframe_n, hf, set_value. simpl.
+  repeat split; try assumption.
+  - destruct (U H) as [X _]. exact X.
+  - destruct (U H) as [X Y]. rewrite X, Y. reflexivity.
+Qed.
+
+Lemma curves_aligned_frame l u :
+  Forall2 cframe (s_items (l_curves l)) (curves_aligned l u) /\
+  tl (curves_aligned l u) = tl (s_items (l_curves l)).
+Proof.
+  unfold curves_aligned. destruct (s_items (l_curves l)) as [|c0 rest].
+  - split; [constructor|reflexivity].
+  - split; [|reflexivity]. constructor.
+    + unfold cframe, set_unit. simpl. auto.
+    + apply Forall2_refl_gen. unfold cframe. auto.
+Qed.
 
 End Refresh.
